@@ -22,25 +22,36 @@ class W:
         return self.t
 
     def _parents(self, p):
+        """create missing ancestors; False when an ancestor is not a directory or p is taken"""
         parts = p.split(b"/")
+        for i in range(2, len(parts)):
+            q = b"/".join(parts[:i])
+            if q in self.nodes and self.nodes[q]["k"] != "d":
+                return False
+        if p in self.nodes and p != MODEL_ROOT:
+            return False
         for i in range(2, len(parts)):
             q = b"/".join(parts[:i])
             if q and q not in self.nodes:
                 self.nodes[q] = {"p": q, "k": "d", "mode": 0o755, "mtime": self._tick()}
+        return True
 
     def dir(self, p, mode=0o755):
-        self._parents(p)
-        self.nodes[p] = {"p": p, "k": "d", "mode": mode, "mtime": self._tick()}
+        if p in self.nodes and self.nodes[p]["k"] == "d":
+            self.nodes[p]["mode"] = mode
+            return p
+        if self._parents(p):
+            self.nodes[p] = {"p": p, "k": "d", "mode": mode, "mtime": self._tick()}
         return p
 
     def file(self, p, data=b"", mode=0o644):
-        self._parents(p)
-        self.nodes[p] = {"p": p, "k": "f", "data": data, "mode": mode, "mtime": self._tick()}
+        if self._parents(p):
+            self.nodes[p] = {"p": p, "k": "f", "data": data, "mode": mode, "mtime": self._tick()}
         return p
 
     def link(self, p, target):
-        self._parents(p)
-        self.nodes[p] = {"p": p, "k": "l", "target": target}
+        if self._parents(p):
+            self.nodes[p] = {"p": p, "k": "l", "target": target}
         return p
 
     def mount(self, p):
@@ -152,3 +163,123 @@ def dedup(seq):
         if not out or out[-1] != s:
             out.append(s)
     return out
+
+
+# ---------------------------------------------------------------------------------------------------
+# the four reading commands
+# ---------------------------------------------------------------------------------------------------
+
+def cmd_request(world, states=False, faults=None, nodes_rows=None):
+    cmd = world["cmd"]
+    if cmd == "put":
+        return put_request(world, states, faults)
+    req = base_request(world, cmd, states, faults, nodes_rows)
+    o = world.get("opts", {})
+    stdin = world.get("stdin")
+    req["stdin"] = [hx(l) for l in stdin.split(b"\n")[:-1]] if stdin else []
+    if stdin and not stdin.endswith(b"\n") and stdin.split(b"\n")[-1] != b"":
+        req["stdin"].append(hx(stdin.split(b"\n")[-1]))
+    if cmd == "list":
+        req["opts"] = {"userDirs": [hx(d) for d in o.get("userDirs", [])]}
+    elif cmd == "restore":
+        req["opts"] = {"path": hx(o.get("path", b"")), "sort": o.get("sort", "date"),
+                       "trashDir": hx(o["trashDir"]) if o.get("trashDir") is not None else None,
+                       "overwrite": bool(o.get("overwrite"))}
+    elif cmd == "empty":
+        req["opts"] = {"userDirs": [hx(d) for d in o.get("userDirs", [])], "dryRun": bool(o.get("dryRun")),
+                       "verbose": o.get("verbose", 0), "interactive": bool(o.get("interactive")),
+                       "now": o["now"], "nowUs": o.get("nowUs", 0)}
+        if o.get("days") is not None:
+            req["opts"]["days"] = o["days"]
+    elif cmd == "rm":
+        req["args"] = [hx(a) for a in world.get("args", [])]
+    return req
+
+
+def cmd_argv(world):
+    cmd, o = world["cmd"], world.get("opts", {})
+    if cmd == "put":
+        return put_argv(o, world["args"])
+    if cmd == "list":
+        return [x for d in o.get("userDirs", []) for x in (b"--trash-dir", d)]
+    if cmd == "restore":
+        a = []
+        if o.get("sort"):
+            a += [b"--sort", o["sort"].encode()]
+        if o.get("trashDir") is not None:
+            a += [b"--trash-dir", o["trashDir"]]
+        if o.get("overwrite"):
+            a.append(b"--overwrite")
+        if o.get("path", b"") != b"":
+            a += [b"--", o["path"]]
+        return a
+    if cmd == "empty":
+        a = [x for d in o.get("userDirs", []) for x in (b"--trash-dir", d)]
+        if o.get("dryRun"):
+            a.append(b"--dry-run")
+        a += [b"-v"] * o.get("verbose", 0)
+        a.append(b"-i" if o.get("interactive") else b"-f")
+        if o.get("days") is not None:
+            a.append(b"%d" % o["days"])
+        return a
+    if cmd == "rm":
+        return ([b"--"] if world.get("args") and world["args"][0].startswith(b"-") else []) + list(world.get("args", []))
+    raise ValueError(cmd)
+
+
+LIST_ERR = [(re.compile(rb"^TrashDir skipped because parent not sticky: (.*)$"), "skipped-not-sticky"),
+            (re.compile(rb"^TrashDir skipped because parent is symlink: (.*)$"), "skipped-symlink"),
+            (re.compile(rb"^Parse Error: (.*): Unable to parse Path\.$"), "parse-error"),
+            (re.compile(rb"^\[Errno \d+\] [^:]*: '(.*)'$"), "io-error"),
+            (re.compile(rb"^trash-rm: (.*): unable to parse 'Path'$"), "unparsable"),
+            (re.compile(rb"^trash-empty: cannot remove (.*)$"), "cannot-remove")]
+
+
+def canon_stderr(cmd, err):
+    """stderr -> sorted list of (kind, argument)"""
+    out = []
+    for line in err.split(b"\n"):
+        if not line:
+            continue
+        for rx, kind in LIST_ERR:
+            m = rx.match(line)
+            if m:
+                out.append((kind, m.group(1)))
+                break
+        else:
+            if line.startswith(b"Traceback") or re.match(rb"^[A-Za-z]*Error: ", line):
+                if ("traceback", b"") not in out:
+                    out.append(("traceback", b""))
+            else:
+                out.append(("other", line[:200]))
+    return sorted(out)
+
+
+def canon_stdout(cmd, out, interactive=False):
+    """stdout as bytes with the prompts removed (prompts are written by input() without newline)"""
+    if cmd == "restore":
+        return re.sub(rb"What file to restore \[0\.\.\d+\]: ", b"", out)
+    if cmd == "empty" and interactive:
+        for marker in (b"Proceed? (y/N) ", b"No trash directories to empty.\n"):
+            k = out.find(marker)
+            if k >= 0:
+                return out[k + len(marker):]
+    return out
+
+
+def model_outs(cmd, outs):
+    """model output events -> (stdout bytes, sorted stderr (kind, arg) list)"""
+    so, se = b"", []
+    for o in outs:
+        if o[0] == "out":
+            so += unhx(o[1]) + b"\n"
+        else:
+            kind = o[1]
+            if kind in ("traceback",):
+                if ("traceback", b"") not in se:
+                    se.append(("traceback", b""))
+            elif kind in ("quit", "die", "invalid-entry", "usage"):
+                se.append((kind, b""))
+            else:
+                se.append((kind, unhx(o[2])))
+    return so, sorted(se)
